@@ -43,6 +43,10 @@ CliChecks(e) ==
      \cup Flag(c.cause \in (OutputCauses \cup InputCauses) => (e.exit = 1 /\ e.errline), "C10_io_failure_not_reported_as_an_error_by_the_tool")
      \* C04 at the tool: decryption reports success only for a complete authentic message completely delivered
      \cup Flag((c.cmd \in {"decrypt", "pass_decrypt"} /\ c.cause # "none") => e.exit # 0, "C04_tool_reports_success_without_a_verified_and_delivered_final_chunk")
+     \* C04 at the tool: whatever the output path held before, after a decryption it holds the authentic plaintext - all of
+     \* it on success, the authenticated prefix after a later chunk failed - and nothing else
+     \cup Flag((c.cmd \in {"decrypt", "pass_decrypt"} /\ c.outp = "file" /\ (c.cause = "none" \/ c.cause \in LateCauses(c.cmd)))
+                 => OutMatches(x.out, e.out), "C04_destination_is_not_exactly_the_authenticated_plaintext_prefix")
      \* C15 at the tool: a password the tool cannot take as given (not UTF-8), or a wrong one, never locks or unlocks anything
      \cup Flag(c.cause \in {"non_utf8_password", "wrong_password"} => e.exit = 1, "C15_tool_works_under_a_password_other_than_the_one_given")
      \* C17 at the tool: an entry whose checksum does not match is not a usable key, so it names nobody
